@@ -234,6 +234,12 @@ pub fn run_pipeline(
     }
 
     if cl.is_single_and_builtin() {
+        // a builtin run in the shell process hands its output over in
+        // cmd_result; the capture pipes were not used.
+        for fds in [fds_capture_stdout, fds_capture_stderr].iter().flatten() {
+            libs::close(fds.0);
+            libs::close(fds.1);
+        }
         return (false, cmd_result);
     }
 
